@@ -52,13 +52,9 @@ func genSetOp(t *rapid.T) op {
 		D: rapid.IntRange(1, 2).Draw(t, "bump")}
 }
 
-// genOps draws an op list. weights select the flavour (C01 broad, C13 adversarial).
-func genOps(t *rapid.T, nmsg int, maxOps int, withCleanup, withInject bool) []op {
-	var ops []op
-	if rapid.IntRange(0, 9).Draw(t, "startset") > 0 {
-		ops = append(ops, genSetOp(t))
-	}
-	n := rapid.IntRange(1, maxOps).Draw(t, "nops")
+// opGroup draws one op (or a short burst). Lists are built with rapid.SliceOfN so that rapid can
+// shrink a failing history by deleting elements.
+func opGroup(nmsg int, withCleanup, withInject bool) *rapid.Generator[[]op] {
 	kinds := []string{"observe", "observe", "loopback", "loopback", "gossip", "gossip", "gossip", "gossip", "gossipvalid", "gossipvalid", "gossipvalid", "gossipvalid", "inbound", "inbound", "set"}
 	if withCleanup {
 		kinds = append(kinds, "cleanup")
@@ -66,31 +62,49 @@ func genOps(t *rapid.T, nmsg int, maxOps int, withCleanup, withInject bool) []op
 	if withInject {
 		kinds = append(kinds, "inject")
 	}
-	for i := 0; i < n; i++ {
+	return rapid.Custom(func(t *rapid.T) []op {
 		switch k := rapid.SampledFrom(kinds).Draw(t, "k"); k {
 		case "observe", "inject":
-			ops = append(ops, op{K: k, A: rapid.IntRange(0, nmsg-1).Draw(t, "m")})
+			return []op{{K: k, A: rapid.IntRange(0, nmsg-1).Draw(t, "m")}}
 		case "loopback":
-			ops = append(ops, op{K: k, A: rapid.IntRange(0, 5).Draw(t, "which"), B: rapid.SampledFrom([]int{0, 0, 0, 1}).Draw(t, "keep")})
+			return []op{{K: k, A: rapid.IntRange(0, 5).Draw(t, "which"), B: rapid.SampledFrom([]int{0, 0, 0, 1}).Draw(t, "keep")}}
 		case "gossip":
-			ops = append(ops, op{K: k, A: rapid.IntRange(0, nmsg-1).Draw(t, "m"), B: rapid.OneOf(rapid.IntRange(0, 6), rapid.IntRange(0, 60)).Draw(t, "signer"),
-				C: rapid.IntRange(0, len(obsKinds)-1).Draw(t, "kind"), D: rapid.IntRange(0, 600).Draw(t, "x")})
+			return []op{{K: k, A: rapid.IntRange(0, nmsg-1).Draw(t, "m"), B: rapid.OneOf(rapid.IntRange(0, 6), rapid.IntRange(0, 60)).Draw(t, "signer"),
+				C: rapid.IntRange(0, len(obsKinds)-1).Draw(t, "kind"), D: rapid.IntRange(0, 600).Draw(t, "x")}}
 		case "gossipvalid": // a burst of valid observations from consecutive members: makes quorum reachable
 			m := rapid.IntRange(0, nmsg-1).Draw(t, "m")
 			from := rapid.IntRange(0, 8).Draw(t, "from")
 			cnt := rapid.IntRange(1, 14).Draw(t, "cnt")
+			var out []op
 			for j := 0; j < cnt; j++ {
-				ops = append(ops, op{K: "gossip", A: m, B: from + j, C: 0})
+				out = append(out, op{K: "gossip", A: m, B: from + j, C: 0})
 			}
+			return out
 		case "inbound":
-			ops = append(ops, op{K: k, A: rapid.IntRange(0, nmsg-1).Draw(t, "m"), B: rapid.IntRange(0, len(inboundKinds)-1).Draw(t, "kind"), C: rapid.IntRange(0, 1000).Draw(t, "seed")})
+			return []op{{K: k, A: rapid.IntRange(0, nmsg-1).Draw(t, "m"), B: rapid.IntRange(0, len(inboundKinds)-1).Draw(t, "kind"), C: rapid.IntRange(0, 1000).Draw(t, "seed")}}
 		case "set":
-			ops = append(ops, genSetOp(t))
+			return []op{genSetOp(t)}
 		case "cleanup":
-			ops = append(ops, op{K: k, A: rapid.IntRange(0, 7).Draw(t, "shift")})
+			return []op{{K: k, A: rapid.IntRange(0, 7).Draw(t, "shift")}}
 		}
+		return nil
+	})
+}
+
+func flatten(gs [][]op) []op {
+	var out []op
+	for _, g := range gs {
+		out = append(out, g...)
 	}
-	return ops
+	return out
+}
+
+func genOps(t *rapid.T, nmsg int, maxOps int, withCleanup, withInject bool) []op {
+	var ops []op
+	if rapid.IntRange(0, 9).Draw(t, "startset") > 0 {
+		ops = append(ops, genSetOp(t))
+	}
+	return append(ops, flatten(rapid.SliceOfN(opGroup(nmsg, withCleanup, withInject), 1, maxOps).Draw(t, "ops"))...)
 }
 
 func genC01(t *rapid.T) procCase {
